@@ -290,6 +290,10 @@ func gen(r *vh.Rand, tier string) []string {
 }
 
 func main() {
+	if c := os.Getenv(engineChildEnv); c != "" { // child of an engine case (engine.go)
+		fmt.Println(runEngineHere(strings.Split(c, " ")))
+		return
+	}
 	vh.Main(gen, func(cases []string) []string {
 		out := make([]string, len(cases))
 		for i, c := range cases {
